@@ -17,3 +17,6 @@ print('baseline %d, passed now %d, missing %d' % (len(base), len(base & passed),
 for m in missing[:20]:
     print('  MISSING', m)
 PY
+# sub-test failures do not show in the junit test cases: the summary line must not mention failures either
+tail -1 "$OUT/log.txt" | grep -q "failed\|error" && { echo "SUMMARY HAS FAILURES:"; grep "^SUBFAILED\|^FAILED\|^ERROR" "$OUT/log.txt" | head -20; tail -1 "$OUT/log.txt"; }
+true
